@@ -40,6 +40,7 @@ PRATT = "src/pest/pratt.py"
 EXC = "src/pest/exceptions.py"
 SKIPPERS = "src/pest/grammar/optimizers/skippers.py"
 PARSER = "src/pest/parser.py"
+PAIRS = "src/pest/pairs.py"
 
 # (id, properties whose check must react, file, old, new, expectation, substring expected in the output for 'fire')
 CATALOGUE: list[tuple] = [
@@ -126,6 +127,12 @@ CATALOGUE: list[tuple] = [
     ("peek-fail-outside-suppress", ["C07"], TERMINALS, "                state.pos += len(value)\n                return True\n\n            state.fail(value)\n        return False\n\n    def generate(self, gen: Builder, matched_var: str, pairs_var: str) -> None:\n        \"\"\"Emit Python code for a PEEK", "                state.pos += len(value)\n                return True\n\n        state.fail(value)\n        return False\n\n    def generate(self, gen: Builder, matched_var: str, pairs_var: str) -> None:\n        \"\"\"Emit Python code for a PEEK", "fire", "R5"),
     ("snapshotting-int-class-level-list", ["C15"], "src/pest/checkpoint_int.py", "    def __init__(self, value: int = 0) -> None:\n        self._value: int = value\n        self._checkpoints: list[int] = []", "    _checkpoints: list[int] = []\n\n    def __init__(self, value: int = 0) -> None:\n        self._value: int = value", "fire", "CLASS-MUTABLE"),
     ("rule-mask-mixes-silent", ["C08"], RULE, "            if not rule or not rule.modifier & (NONATOMIC | COMPOUND):\n                # Atomic rule silences children", "            if not rule or not rule.modifier & (SILENT | NONATOMIC | COMPOUND):\n                # Atomic rule silences children", "fire", "MASK-AXES"),
+    ("pair-tokens-children-reversed", ["C06"], PAIRS, "        for child in self.children:\n            yield from child.tokens()\n        yield End(self.rule, self.end)", "        for child in reversed(self.children):\n            yield from child.tokens()\n        yield End(self.rule, self.end)", "fire", "Pair.tokens"),
+    ("pairs-flatten-postorder", ["C06"], PAIRS, "            yield pair\n            for child in pair.children:\n                yield from _flatten(child)", "            for child in pair.children:\n                yield from _flatten(child)\n            yield pair", "fire", "Pairs.flatten"),
+    ("pair-text-off-by-one", ["C06"], PAIRS, "        \"\"\"The substring pointed to by this token pair.\"\"\"\n        return self.input[self.start : self.end]", "        \"\"\"The substring pointed to by this token pair.\"\"\"\n        return self.input[self.start : self.end + 1]", "fire", "Pair.text"),
+    ("stream-peek-advances", ["C18", "C06"], PAIRS, "        if self.pos < len(self.pairs):\n            return self.pairs[self.pos]\n        return None", "        if self.pos < len(self.pairs):\n            self.pos += 1\n            return self.pairs[self.pos - 1]\n        return None", "fire", "Stream"),
+    ("S-pair-tokens-list-form", ["C06"], PAIRS, "        yield Start(self.rule, self.start)\n        for child in self.children:\n            yield from child.tokens()\n        yield End(self.rule, self.end)", "        out: list[Token] = [Start(self.rule, self.start)]\n        for child in self.children:\n            out.extend(child.tokens())\n        out.append(End(self.rule, self.end))\n        return iter(out)", "silent", ""),
+    ("S-pairs-flatten-explicit-stack", ["C06"], PAIRS, "        for pair in self._pairs:\n            yield from _flatten(pair)", "        stack = list(reversed(self._pairs))\n        while stack:\n            node = stack.pop()\n            yield node\n            stack.extend(reversed(node.children))", "silent", ""),
 ]
 
 
